@@ -727,6 +727,8 @@ def run(ctx):
     r6_read_diamond(ctx, prog)
     r6b_attribute_reads(ctx, prog)
     r2b_flag_arguments(ctx, prog)
+    from rules import c05
+    c05.r7_placement_flags(ctx, prog, rule_id='C06.R2c')
     r7_default_privacy(ctx, prog)
     r8_reload(ctx, prog)
 
